@@ -81,6 +81,10 @@ type c12eConn struct {
 	peerMID   int
 	flags     []string
 	doneMIDs  []int // message IDs of the messages the receive function has returned for, in order (one per signal on processed)
+	// family H (c12_handover.go): the application uses and releases what Do returned at once (eager) instead of waiting
+	// for the script; hg learns which goroutine the application's is
+	eager bool
+	hg    *handoverGate
 }
 
 func c12eToken(k int) []byte { return []byte{0xE0 + byte(k&0xf), 0x12, 0xC1} }
@@ -188,6 +192,9 @@ func (c *c12eConn) start(code codes.Code, tok, bodyLen int) {
 	tr := c.tr
 	go func() {
 		defer close(call.done)
+		if c.hg != nil {
+			c.hg.setCaller(curGID(), call.done)
+		}
 		req := c.cc.AcquireMessage(ctx)
 		req.SetCode(code)
 		req.SetToken(c12eToken(tok))
@@ -207,7 +214,9 @@ func (c *c12eConn) start(code codes.Code, tok, bodyLen int) {
 			}()
 			call.resp, call.err = c.cc.Do(req)
 		}()
-		<-call.goCh
+		if !c.eager {
+			<-call.goCh
+		}
 		if call.resp != nil {
 			tr.Hold(call.resp)
 			if call.resp.Body() != nil {
